@@ -5,6 +5,7 @@ import (
 	"fmt"
 	"os"
 
+	"github.com/spq/pkappa2/verifx/c01"
 	"github.com/spq/pkappa2/verifx/c03"
 	"github.com/spq/pkappa2/verifx/c14"
 	"github.com/spq/pkappa2/verifx/c17"
@@ -23,6 +24,8 @@ func main() {
 	switch *prop {
 	case "C17":
 		code = c17.Run(*tier)
+	case "C01":
+		code = c01.Run(*tier)
 	case "C03":
 		code = c03.Run(*tier)
 	case "C14":
